@@ -103,6 +103,19 @@ Theorem C17_conn_short_buffer_read_cut :
 Proof. exact short_buffer_cut_anywhere. Qed.
 Print Assumptions C17_conn_short_buffer_read_cut.
 
+(* ---- a peer that goes silent: which deadline bounds the call ([deadline_of], with the fallback of
+   ApiVersions to the write deadline).  A call made under the deadline of its own side (read-side
+   calls: SetReadDeadline or SetDeadline; write-side calls — produce, join/heartbeat/leave,
+   offset-commit, create/delete topics, SASL: SetWriteDeadline or SetDeadline) is bounded in every
+   exchange it performs, INCLUDING the implicit version negotiation of a first call on a Conn
+   whose versions are not loaded: it returns by that deadline (timeout error, Conn closed: checked
+   on the implementation by the stall cases of checks/c11.py) ---- *)
+Theorem C17_conn_stall_returns_by_deadline : forall rset wset loaded a,
+  (match op_side a with SRead => rset | SWrite => wset end) = true ->
+  deadline_of rset wset (stalled_exchange loaded a) <> None.
+Proof. exact stall_bounded. Qed.
+Print Assumptions C17_conn_stall_returns_by_deadline.
+
 (* ---- non-vacuity ---- *)
 Example C17_conn_nonvacuous_fetch_full :
   well_formed AFetch 2 w_fetch_ok_v2 /\
